@@ -118,12 +118,21 @@ pub fn check_stream(obs: &mut Obs, items: &[Item], via_record: bool, shape: u64)
             }
         }
     } else {
-        let mut cur = Cursor::new(&stream[..]);
-        match mon::catch(|| decode_messages(&mut cur)) {
+        let dribble = shape % 3 == 0;
+        let mut cur = mon::DribbleReader::new(Cursor::new(&stream[..]), if dribble { shape } else { 0 });
+        let mut plain = Cursor::new(&stream[..]);
+        let r = if dribble {
+            obs.count("streams_through_short_read_reader", 1);
+            mon::catch(|| decode_messages(&mut cur))
+        } else {
+            mon::catch(|| decode_messages(&mut plain))
+        };
+        match r {
             Err(p) => Err((format!("decode_messages {}", p.signature()), p.message)),
             Ok(Err(e)) => Err(("decode_messages error on well-formed stream".to_string(), format!("{e:?}"))),
             Ok(Ok(v)) => {
-                pos_after = cur.position();
+                use std::io::Seek;
+                pos_after = if dribble { cur.stream_position().unwrap_or(0) } else { plain.position() };
                 Ok(v)
             }
         }
